@@ -398,20 +398,34 @@ pub fn run(ctx: &'static Ctx, p: P) {
             use rayon::prelude::*;
             let mut progs: Vec<(String, Vec<Op>)> = vec![];
             for k in 0..t.kinds().len() as u8 {
-                let shape = t.shapes(k)[0];
-                let fields = t.fields(k, shape);
-                let idx = match fields.iter().position(|ft| matches!(ft, crate::tables::FT::U(b) if *b >= 8)) {
-                    Some(i) => i as u8,
-                    None => continue,
-                };
-                let pre = t.prelude(k, shape);
-                for v in 0..=255u64 {
-                    let mut ops = pre.clone();
-                    let base = crate::fill::Fill::b(2);
-                    let cur = base.raw(idx, 64);
-                    ops.push(Op { k, shape, fill: base.with(idx, (cur & !0xff) | v) });
-                    ops.push(Op { k, shape, fill: crate::fill::Fill::b(1) });
-                    progs.push((format!("{}[arg {} low byte {:#04x}]", t.kinds()[k as usize], idx, v), ops));
+                let shapes = t.shapes(k);
+                // FADT's set_field has one shape per field; elsewhere the first shapes suffice
+                let nshapes = if t.name() == "fadt" { shapes.len() } else { shapes.len().min(2) };
+                for (si, shape) in shapes.iter().take(nshapes).enumerate() {
+                    let shape = *shape;
+                    let fields = t.fields(k, shape);
+                    let first_wide = fields.iter().position(|ft| matches!(ft, crate::tables::FT::U(b) if *b >= 8));
+                    let pre = t.prelude(k, shape);
+                    for (i, ft) in fields.iter().enumerate() {
+                        // every byte-wide argument through all its values; the first wider one through all 256 low bytes
+                        let byte_wide = matches!(ft, crate::tables::FT::U(b) if *b <= 8);
+                        if !(byte_wide || (si == 0 && Some(i) == first_wide)) {
+                            continue;
+                        }
+                        let idx = i as u8;
+                        let top = match ft {
+                            crate::tables::FT::U(b) if *b < 8 => 1u64 << *b,
+                            _ => 256,
+                        };
+                        for v in 0..top {
+                            let mut ops = pre.clone();
+                            let base = crate::fill::Fill::b(2);
+                            let cur = base.raw(idx, 64);
+                            ops.push(Op { k, shape, fill: base.with(idx, (cur & !0xff) | v) });
+                            ops.push(Op { k, shape, fill: crate::fill::Fill::b(1) });
+                            progs.push((format!("{}[shape {} arg {} low byte {:#04x}]", t.kinds()[k as usize], shape, idx, v), ops));
+                        }
+                    }
                 }
             }
             sum_programs = progs.len() as u64;
